@@ -349,8 +349,8 @@ class LinearPaths:
     return merged, first_reversed, last_reversed
 
   def __link_merged(self, merged_name, segment_end, is_reversed):
-    to_disconnect = self.segment(segment_end.segment).dovetails_of_end(
-                                                 segment_end.end_type)
+    to_disconnect = list(self.segment(segment_end.segment).dovetails_of_end(
+                                                 segment_end.end_type))
     to_add = []
     for l in to_disconnect:
       l2 = l.clone()
@@ -364,7 +364,8 @@ class LinearPaths:
           l2.from_orient = gfapy.invert(l2.from_orient)
       to_add.append(l2)
     for l in to_disconnect:
-      l.disconnect()
+      if l.is_connected():
+        l.disconnect()
     for l in to_add:
       self.add_line(l)
 
